@@ -340,6 +340,10 @@ func checkC11(c *Check) {
 	}
 	c.Floor("event slots examined", 200, nslots)
 
+	// the text the processor sees is the line's own text (verbatim substrings, keyword at the start)
+	spacingRule(c)
+	importRules(c, "C17", checkC17, "", "line-integrity")
+
 	// 6. forward only with success
 	for _, h := range findHandOffs(p) {
 		ctxs, why := rowContexts(p, h.Fn, rowOf, 0)
